@@ -119,26 +119,32 @@ const (
 	sysSend = iota + 1
 	sysRecv
 	sysClose
+	sysInject // enqueue a datagram from the kernel on the socket (transport scenarios)
 )
 
-// schedGate performs socket calls as simulated system calls of the current task.
-type schedGate struct{ sc *core.Sched }
+// schedGate performs socket calls as simulated system calls of the current
+// task. port selects the socket (the C18 scenario runs a second, independent
+// client on its own socket).
+type schedGate struct {
+	sc   *core.Sched
+	port int64
+}
 
 func (g *schedGate) send(wire []byte, dstPid uint32) int {
 	t := g.sc.Me()
-	r := t.Sys(core.SysReq{Op: sysSend, A: int64(dstPid), Data: wire})
+	r := t.Sys(core.SysReq{Op: sysSend, A: int64(dstPid), B: g.port, Data: wire})
 	return int(r.Errno)
 }
 
 func (g *schedGate) recv() ([]byte, uint32, uint32, bool, int) {
 	t := g.sc.Me()
-	r := t.Sys(core.SysReq{Op: sysRecv})
+	r := t.Sys(core.SysReq{Op: sysRecv, B: g.port})
 	return r.Data, uint32(r.A), uint32(r.A >> 32), r.N == 1, int(r.Errno)
 }
 
 func (g *schedGate) close() {
 	t := g.sc.Me()
-	t.Sys(core.SysReq{Op: sysClose})
+	t.Sys(core.SysReq{Op: sysClose, B: g.port})
 }
 
 // sysHandler executes the simulated system calls in the scheduler goroutine.
@@ -158,6 +164,11 @@ func (p *kernelPort) sysHandler(task int, req core.SysReq) core.SysResp {
 		return core.SysResp{Data: d.Bytes, A: int64(d.FromPid) | int64(d.Groups)<<32, N: nn}
 	case sysClose:
 		p.k.Close()
+	case sysInject:
+		for _, d := range p.k.Queue {
+			d.Consumed = true
+		}
+		p.k.Inject(req.Data, 0, false)
 	}
 	return core.SysResp{}
 }
